@@ -237,10 +237,12 @@ def case_of(ops_lines, k, delim):
 # ---------------------------------------------------------------- known findings
 
 def known_findings():
-    p = os.path.join(V, "known_findings.json")
-    if not os.path.exists(p):
-        return []
-    return json.load(open(p)).get("findings", [])
+    """all entries of /verif/known_findings/*.json (committed; never written at run time)"""
+    import glob
+    out = []
+    for p in sorted(glob.glob(os.path.join(V, "known_findings", "*.json"))):
+        out += json.load(open(p)).get("findings", [])
+    return out
 
 
 def classify(prop, sig):
